@@ -164,7 +164,14 @@ def schedEnabled (s : St) (c : Nat) (now : Int) : Prop :=
 instance (s : St) (c : Nat) (now : Int) : Decidable (schedEnabled s c now) := by
   unfold schedEnabled; exact inferInstance
 
-/-- One action; `none` when it is not enabled in `s`. -/
+/-- One action; `none` when it is not enabled in `s`.
+
+    `sched` merges three steps of the scheduler thread into the critical section that precedes them:
+    `SetForceNextCheck(false)` (:209-212), `IncreasePendingChecks()` (:217) and the dispatch of the helper (:225)
+    happen after `lock.unlock()`.  This loses no interleaving that matters here: only the scheduler thread increments
+    the counter and it does so before it reads the counter again (:121), helpers only decrement it, and the helper does
+    not exist before it is queued.  (A `force` request that arrives between the unlock and the clearing of the flag is
+    absorbed by the forced check that is being dispatched; the trace validation treats that window as ambiguous.) -/
 def step (s : St) : Act → Option St
   | .setActive c b => if c < s.n then some (s.upd c ((s.chk c).setActive b)) else none
   | .setPaused c b => if c < s.n then some (s.upd c ((s.chk c).setPaused b)) else none
